@@ -77,6 +77,16 @@ def vhdx_spec(draw, tier="quick", layer=0, geometry=None, has_parent=False):
         base = after + far
     where = {b: base + unaligned + s * (bmb + pad) for b, s in zip(present, slots)}
     blocks = [[b, s, where.get(b, draw(st.sampled_from([0, 0, 5, 1 << 30])) if s != 6 else 0)] for b, s in zip(desc, states)]
+    # a block that is no longer present (zero / unmapped / undefined) may keep the offset of the space it had, right behind its
+    # present neighbour, with the old bytes still there (the builder writes stale data for such entries)
+    used = set(where.values())
+    for ent in blocks:
+        b, s, _f = ent
+        if s in (1, 2, 3) and (b - 1) in where and pad == 0 and draw(st.booleans()):
+            cand = where[b - 1] + bmb
+            if all(abs(cand - u) >= bmb for u in used):
+                ent[2] = cand
+                used.add(cand)
     s1 = draw(st.one_of(st.sampled_from([0, 1, 65534, (1 << 63)]), st.integers(0, (1 << 64) - 2)))
     s2 = s1 + 1 if draw(st.booleans()) else draw(st.integers(0, (1 << 64) - 1).filter(lambda x: x != s1))
     seq = [s1, s2] if draw(st.booleans()) else [s2, s1]
@@ -86,7 +96,7 @@ def vhdx_spec(draw, tier="quick", layer=0, geometry=None, has_parent=False):
         "meta_order": draw(st.permutations(list(range(5)))), "meta_gap": draw(st.sampled_from([0, 0, 4, 100])),
         "meta_tail": draw(st.sampled_from([False, False, True])), "stale_log_guid": draw(st.sampled_from([False, False, True])),
         "extra_region": draw(st.sampled_from([None, None, None, 0, 1, 2])),
-        "blocks": blocks, "layer": layer, "leave_allocated": draw(st.sampled_from([False, False, True])), "data_end_mb": base + unaligned + (max(slots, default=-1) + 1) * (bmb + pad),
+        "blocks": blocks, "layer": layer, "leave_allocated": draw(st.sampled_from([False, False, True])), "data_end_mb": base + unaligned + (max(slots, default=-1) + 2) * (bmb + pad),
     }
 
 
